@@ -3,6 +3,10 @@
 spec = {"tasks": [{"id": int, "module": int, "deps": [n…], "prods": [n…], "after": [task id…],
                    "after_style": "expr"|"func"|"list", "spell": {"<n>": "rel"|"dot"|"dotdot"|"abs"|"absdd"}}],
         "py": [n…],        # node ids that are in-memory PythonNodes (all other nodes are files data/n<n>.txt)
+        "pk": [n…],        # node ids that are PickleNodes (file data/n<n>.txt holding a pickle)
+        "dirs": [n…],      # node ids that are DirectoryNode(root_dir=data/dir<n>, pattern="*.txt") — declared as products only
+        "subdirs": bool,   # module m lives in its own folder m<m>/task_m<m>.py (relative spellings then start with ../)
+        "opts": {…},       # build options that must be irrelevant to well-formedness (check_casing_of_paths, force, dry_run, verbose, capture)
         "wrap": [[t, n]…], # (API level only) dependency declared through a wrapping PythonNode
         "stale": bool}     # product files already exist before the first build
 Everything here is independent of pytask and of the Lean model.
@@ -233,6 +237,7 @@ def gen_random(rng, nt=(2, 8), cyclic_p=0.0, shared_p=0.0, after_p=0.35, py_p=0.
         add_back_edge(rng, spec)
     if rng.random() < shared_p:
         add_shared(rng, spec, rng.randint(2, min(4, n)))
+    add_kinds(rng, spec)
     add_spellings(rng, spec)
     if rng.random() < 0.1:
         t = rng.choice(tasks)
@@ -319,25 +324,54 @@ def gen_cycle(rng, length, through="file", extra=(0, 3)):
     for t in spec["tasks"]:
         t["deps"].sort()
         t["after"].sort()
+    add_kinds(rng, spec)
     add_spellings(rng, spec)
     return spec
 
 
-def gen_shared(rng, k, spell_mode="mixed", py=False):
-    """k tasks declare one product, each under its own spelling; plus a consumer and an unrelated task."""
+def gen_shared(rng, k, spell_mode="mixed", py=False, kind=None):
+    """k tasks declare one product, each under its own spelling; plus a consumer and an unrelated task.
+    kind: 'file' | 'py' | 'pk' (PickleNode) | 'dir' (DirectoryNode product; nobody consumes it)."""
+    kind = kind or ("py" if py else "file")
     n = 300
     tasks = []
     spells = list(SPELLINGS)
     rng.shuffle(spells)
     for i in range(k):
         t = _task(i, deps=[299], prods=[n] + ([301 + i] if rng.random() < 0.5 else []), module=rng.randrange(2))
-        if not py:
+        if kind != "py":
             t["spell"][str(n)] = spells[i % len(spells)] if spell_mode == "mixed" else spell_mode
+        t["prod_style"] = rng.choice(["return", "param"])
         rng.shuffle(t["prods"])
         tasks.append(t)
-    tasks.append(_task(k, deps=[n], prods=[320], module=0))
+    tasks.append(_task(k, deps=[n] if kind != "dir" else [299], prods=[320], module=0))
     tasks.append(_task(k + 1, deps=[299], prods=[321], module=1))
-    return {"tasks": tasks, "py": [n] if py else [], "wrap": [], "stale": rng.random() < 0.5}
+    return {"tasks": tasks, "py": [n] if kind == "py" else [], "pk": [n] if kind == "pk" else [], "dirs": [n] if kind == "dir" else [],
+            "wrap": [], "stale": rng.random() < 0.5, "subdirs": rng.random() < 0.5}
+
+
+def gen_opts(rng):
+    """Build options that have nothing to do with the shape of the task graph."""
+    return {"check_casing_of_paths": rng.random() < 0.5, "force": rng.random() < 0.25, "dry_run": rng.random() < 0.2,
+            "verbose": rng.choice([0, 1, 2]), "capture": rng.choice(["fd", "sys", "no", "tee-sys"])}
+
+
+def add_kinds(rng, spec, pk_p=0.15, dir_p=0.3):
+    """Turn some file nodes into PickleNodes, and some never-consumed file products into DirectoryNode products."""
+    py = set(spec.get("py", []))
+    deps = {d for t in spec["tasks"] for d in t["deps"]}
+    nodes = sorted({x for t in spec["tasks"] for x in t["deps"] + t["prods"]} - py)
+    pk, dirs = [], []
+    for n in nodes:
+        if n not in deps and rng.random() < dir_p:
+            dirs.append(n)
+        elif rng.random() < pk_p:
+            pk.append(n)
+    spec["pk"], spec["dirs"] = pk, dirs
+    for t in spec["tasks"]:
+        t["prod_style"] = rng.choice(["return", "param"])
+    spec["subdirs"] = rng.random() < 0.35
+    return spec
 
 
 def wellformed_variant(rng, spec):
@@ -354,7 +388,7 @@ def api_case(spec):
     for t in spec["tasks"]:
         tasks.append({"id": t["id"], "deps": t["deps"], "prods": t["prods"], "after": t["after"],
                       "after_style": "list" if t.get("after_style") in ("list", "func") and t["id"] not in t["after"] else "expr"})
-    return {"tasks": tasks, "py": spec.get("py", []), "wrap": spec.get("wrap", [])}
+    return {"tasks": tasks, "py": spec.get("py", []), "wrap": spec.get("wrap", []), "pk": spec.get("pk", []), "dirs": spec.get("dirs", [])}
 
 
 def run_api(cases, hashseeds):
@@ -436,11 +470,20 @@ def log(line):
     with open(LOG, "a") as f:
         f.write(line + "\n")
 
-def body(t, prods, nret):
+def body(t, prods, nret, save=(), dirs=()):
+    """prods: paths to write; save: node objects (PythonNode / PickleNode products passed as parameters);
+    dirs: directories of DirectoryNode products; nret: number of values to return into `produces=` nodes."""
     log(f"S {t}")
     for p in prods:
         Path(p).parent.mkdir(parents=True, exist_ok=True)
         Path(p).write_text(str(t))
+    for nd in save:
+        if hasattr(nd, "path"):
+            Path(nd.path).parent.mkdir(parents=True, exist_ok=True)
+        nd.save(str(t))
+    for d in dirs:
+        Path(d).mkdir(parents=True, exist_ok=True)
+        (Path(d) / f"f{t}.txt").write_text(str(t))
     log(f"E {t}")
     if nret == 0:
         return None
@@ -448,26 +491,46 @@ def body(t, prods, nret):
 '''
 
 
-def path_expr(n, spell):
-    f = f"n{n}.txt"
+def path_expr(n, spell, subdirs=False, is_dir=False):
+    f = f"dir{n}" if is_dir else f"n{n}.txt"
+    pre = "../data" if subdirs else "data"
     return {
-        "rel": f"Path('data/{f}')",
-        "dot": f"Path('data/./{f}')",
-        "dotdot": f"Path('data/c/../{f}')",
+        "rel": f"Path('{pre}/{f}')",
+        "dot": f"Path('{pre}/./{f}')",
+        "dotdot": f"Path('{pre}/c/../{f}')",
         "abs": f"DATA / '{f}'",
         "absdd": f"DATA / 'c' / '..' / '{f}'",
     }[spell]
 
 
+def module_file(root: Path, spec, m: int) -> Path:
+    return (root / f"m{m}" / f"task_m{m}.py") if spec.get("subdirs") else project.module_path(root, m)
+
+
 def render_module(spec, m):
     py = set(spec.get("py", []))
+    pk = set(spec.get("pk", []))
+    dirs = set(spec.get("dirs", []))
+    sub = bool(spec.get("subdirs"))
     tasks = sorted((t for t in spec["tasks"] if t["module"] == m), key=lambda t: t["id"])
+    here = "Path(__file__).resolve().parent" + (".parent" if sub else "")
     L = [f"# C09 module {m}", "from __future__ import annotations", "from pathlib import Path", "from typing import Annotated", "from typing import Any",
-         "from pytask import Product, task", "import _verif_c09 as rt", "DATA = Path(__file__).resolve().parent / 'data'", ""]
+         "from pytask import DirectoryNode, PickleNode, Product, task", "import _verif_c09 as rt", f"DATA = {here} / 'data'", ""]
     defined = set()
     forms = {}
     for t in tasks:
         tid = t["id"]
+
+        def pe(n, is_dir=False):
+            return path_expr(n, t["spell"].get(str(n), "abs"), sub, is_dir)
+
+        def node_expr(n):
+            if n in py:
+                return f"rt.py({n})"
+            if n in pk:
+                return f"PickleNode(path={pe(n)})"
+            return pe(n)
+
         kw = []
         aft = t.get("after", [])
         if aft:
@@ -481,28 +544,36 @@ def render_module(spec, m):
             else:
                 kw.append("after=" + repr(" or ".join(project.tname(a) for a in aft)))
             forms[tid] = st
-        params, path_prods = [], []
-        for n in t["deps"]:          # parameters without default first
-            if n in py:
-                params.append(f"d{n}: Annotated[Any, rt.py({n})]")
+        nodef, withdef, path_prods, save_prods, dir_prods = [], [], [], [], []
         for n in t["deps"]:
-            if n not in py:
-                params.append(f"d{n}: Path = {path_expr(n, t['spell'].get(str(n), 'abs'))}")
+            if n in py or n in pk:
+                nodef.append(f"d{n}: Annotated[Any, {node_expr(n)}]")
+            else:
+                withdef.append(f"d{n}: Path = {pe(n)}")
         uniq = list(dict.fromkeys(t["prods"]))
         nret = 0
-        if any(n in py for n in uniq):
+        special = [n for n in uniq if n in py or n in pk]
+        has_dir = any(n in dirs for n in uniq)
+        if special and not has_dir and t.get("prod_style", "return") == "return":
             # `@task(produces=…)` replaces products declared through parameters, so every product of such a task goes through the return value
-            exprs = [f"rt.py({n})" if n in py else path_expr(n, t["spell"].get(str(n), "abs")) for n in uniq]
+            exprs = [node_expr(n) for n in uniq]
             kw.append("produces=" + (exprs[0] if len(exprs) == 1 else "[" + ", ".join(exprs) + "]"))
             nret = len(exprs)
         else:
             for i, n in enumerate(uniq):
-                params.append(f"p{i}: Annotated[Path, Product] = {path_expr(n, t['spell'].get(str(n), 'abs'))}")
-                path_prods.append(f"p{i}")
+                if n in dirs:
+                    nodef.append(f"p{i}: Annotated[Path, DirectoryNode(root_dir={pe(n, True)}, pattern='*.txt'), Product]")
+                    dir_prods.append(f"p{i}")
+                elif n in py or n in pk:
+                    nodef.append(f"p{i}: Annotated[Any, {node_expr(n)}, Product]")
+                    save_prods.append(f"p{i}")
+                else:
+                    withdef.append(f"p{i}: Annotated[Path, Product] = {pe(n)}")
+                    path_prods.append(f"p{i}")
         if kw:
             L.append("@task(" + ", ".join(kw) + ")")
-        L.append(f"def {project.tname(tid)}({', '.join(params)}):")
-        L.append(f"    return rt.body({tid}, [{', '.join(path_prods)}], {nret})")
+        L.append(f"def {project.tname(tid)}({', '.join(nodef + withdef)}):")
+        L.append(f"    return rt.body({tid}, [{', '.join(path_prods)}], {nret}, save=[{', '.join(save_prods)}], dirs=[{', '.join(dir_prods)}])")
         L.append("")
         defined.add(tid)
     return "\n".join(L) + "\n", forms
@@ -515,34 +586,48 @@ def input_nodes(spec):
     return sorted({d for t in spec["tasks"] for d in t["deps"]} - prods - py)
 
 
+def node_file(root: Path, spec, n: int) -> Path:
+    return (root / "data" / f"dir{n}") if n in set(spec.get("dirs", [])) else project.node_path(root, n)
+
+
 def materialise(root: Path, spec, stale=False):
+    import pickle
     root.mkdir(parents=True, exist_ok=True)
     (root / "pyproject.toml").write_text("[tool.pytask.ini_options]\n")
     (root / "_verif_c09.py").write_text(RT_C09)
     (root / "data").mkdir(exist_ok=True)
     forms = {}
+    pk = set(spec.get("pk", []))
     mods = sorted({t["module"] for t in spec["tasks"]})
-    for p in root.glob("task_m*.py"):
-        if int(p.stem[6:]) not in mods:
+    want = {module_file(root, spec, m) for m in mods}
+    for p in list(root.rglob("task_m*.py")):
+        if p not in want:
             p.unlink()
     for m in mods:
         txt, f = render_module(spec, m)
         forms.update(f)
-        mp = project.module_path(root, m)
+        mp = module_file(root, spec, m)
+        mp.parent.mkdir(parents=True, exist_ok=True)
         if not mp.exists() or mp.read_text() != txt:
             mp.write_text(txt)
     for n in input_nodes(spec):
         p = project.node_path(root, n)
         if not p.exists():
-            p.write_text("7")
+            if n in pk:
+                p.write_bytes(pickle.dumps("7"))
+            else:
+                p.write_text("7")
     if stale:
-        py = set(spec.get("py", []))
+        skip = set(spec.get("py", [])) | set(spec.get("dirs", []))
         for t in spec["tasks"]:
             for n in t["prods"]:
-                if n not in py:
+                if n not in skip:
                     p = project.node_path(root, n)
                     if not p.exists():
-                        p.write_text("0")
+                        if n in pk:
+                            p.write_bytes(pickle.dumps("0"))
+                        else:
+                            p.write_text("0")
     return forms
 
 
@@ -552,5 +637,5 @@ def snapshot(root: Path):
     d = root / "data"
     for p in sorted(d.rglob("*")):
         if p.is_file():
-            out[str(p.relative_to(root))] = p.read_bytes().decode(errors="replace")
+            out[str(p.relative_to(root))] = p.read_bytes().hex()
     return out
